@@ -113,7 +113,10 @@ impl InnerNodeManage {
         }
         let mut is_change = !dels.is_empty();
         for key in dels {
-            self.all_nodes.remove(&key);
+            if let Some(mut node) = self.all_nodes.remove(&key) {
+                //节点移出集群,它的grpc客户端注册的实例随之失效
+                Self::client_invalid_instance(&self.naming_actor, &mut node);
+            }
         }
         let now = now_millis();
         for (key, addr) in nodes {
